@@ -22,14 +22,21 @@ class STLExplainer(LTLExplainer, StlAstVisitor):
             if top_signal[0] < 0:
                 self.visit(spec, [[[0,0]], False])
 
+    def bounds(self, element):
+        transformer = getattr(self, 'time_unit_transformer', None)
+        if transformer is None:
+            return element.begin, element.end
+        return transformer(element)
+
     def visitTimedEventually(self, element, args):
         intervals = args[0]
         flag = args[1]
         op_signal = self.spec.results[element.children[0]]
+        begin, end = self.bounds(element)
         if flag:
-            op_intervals = explain_sat_timed_eventually(op_signal, intervals, element.begin, element.end)
+            op_intervals = explain_sat_timed_eventually(op_signal, intervals, begin, end)
         else:
-            op_intervals = explain_unsat_timed_eventually(op_signal, intervals, element.begin, element.end)
+            op_intervals = explain_unsat_timed_eventually(op_signal, intervals, begin, end)
         self.explanations[element.name] = intervals
         self.visit(element.children[0], [op_intervals, flag])
 
@@ -37,10 +44,11 @@ class STLExplainer(LTLExplainer, StlAstVisitor):
         intervals = args[0]
         flag = args[1]
         op_signal = self.spec.results[element.children[0]]
+        begin, end = self.bounds(element)
         if flag:
-            op_intervals = explain_sat_timed_always(op_signal, intervals, element.begin, element.end)
+            op_intervals = explain_sat_timed_always(op_signal, intervals, begin, end)
         else:
-            op_intervals = explain_unsat_timed_always(op_signal, intervals, element.begin, element.end)
+            op_intervals = explain_unsat_timed_always(op_signal, intervals, begin, end)
         self.explanations[element.name] = intervals
         self.visit(element.children[0], [op_intervals, flag])
 
@@ -51,10 +59,11 @@ class STLExplainer(LTLExplainer, StlAstVisitor):
         intervals = args[0]
         flag = args[1]
         op_signal = self.spec.results[element.children[0]]
+        begin, end = self.bounds(element)
         if flag:
-            op_intervals = explain_sat_timed_once(op_signal, intervals, element.begin, element.end)
+            op_intervals = explain_sat_timed_once(op_signal, intervals, begin, end)
         else:
-            op_intervals = explain_unsat_timed_once(op_signal, intervals, element.begin, element.end)
+            op_intervals = explain_unsat_timed_once(op_signal, intervals, begin, end)
         self.explanations[element.name] = intervals
         self.visit(element.children[0], [op_intervals, flag])
 
@@ -62,10 +71,11 @@ class STLExplainer(LTLExplainer, StlAstVisitor):
         intervals = args[0]
         flag = args[1]
         op_signal = self.spec.results[element.children[0]]
+        begin, end = self.bounds(element)
         if flag:
-            op_intervals = explain_sat_timed_historically(op_signal, intervals, element.begin, element.end)
+            op_intervals = explain_sat_timed_historically(op_signal, intervals, begin, end)
         else:
-            op_intervals = explain_unsat_timed_historically(op_signal, intervals, element.begin, element.end)
+            op_intervals = explain_unsat_timed_historically(op_signal, intervals, begin, end)
         self.explanations[element.name] = intervals
         self.visit(element.children[0], [op_intervals, flag])
 
